@@ -19,6 +19,7 @@ register("bencode", "roundtrip", "strict", "sortkeys")
 register("recheck", "feed", "hashcheck")
 register("rebuild", "map_pieces")
 register("edit", "edit", "magnet", "quote", "unquote")
+register("creators", "create", "flt", "wf", "path", "descend")
 
 
 def binary(area):
